@@ -104,8 +104,9 @@ def loop_handler(ip, s, fr: Frame, it):
         fr.vars[idx_name] = VInt(0)
     for g, (t, init) in inv.ghost.get("vars", {}).items():
         fr.vars[g] = ip.eval_spec_expr(init, inv_env(), old)
+    inv_items = list(inv.invariant.items()) if isinstance(inv.invariant, dict) else list(enumerate(inv.invariant))
     # ---- entry
-    for i, clause in enumerate(inv.invariant):
+    for i, clause in inv_items:
         ip.check(f"loop{k}:entry:{i}", ip.spec_bool(clause, inv_env(), old), where=clause)
     # ---- havoc
     loop_pre = st.snapshot()
@@ -122,7 +123,7 @@ def loop_handler(ip, s, fr: Frame, it):
         i_t = st.fresh(idx_name, z3.IntSort())
         st.assume(z3.And(i_t >= 0, i_t <= z3.Length(seq_term)))
         fr.vars[idx_name] = VInt(i_t)
-    for clause in inv.invariant:
+    for _i, clause in inv_items:
         st.assume(ip.spec_bool(clause, inv_env(), old))
     # ---- exit or iterate
     if st.choose(2, f"loop{k}") == 0:
@@ -158,7 +159,7 @@ def loop_handler(ip, s, fr: Frame, it):
         fr.vars[idx_name] = VInt(fr.vars[idx_name].term + 1)
     for upd_name, upd in inv.ghost.get("update", {}).items():
         fr.vars[upd_name] = ip.eval_spec_expr(upd, inv_env(), old)
-    for i, clause in enumerate(inv.invariant):
+    for i, clause in inv_items:
         ip.check(f"loop{k}:preserved:{i}", ip.spec_bool(clause, inv_env(), old), where=clause)
     raise PathDone()
 
